@@ -946,6 +946,12 @@ static size_t ZDICT_addEntropyTablesFromBuffer_advanced(
     U32 const notificationLevel = params.notificationLevel;
     size_t hSize = 8;
 
+    /* check conditions (same as ZDICT_finalizeDictionary) */
+    if (dictBufferCapacity < dictContentSize) return ERROR(dstSize_tooSmall);
+    if (dictBufferCapacity < ZDICT_DICTSIZE_MIN) return ERROR(dstSize_tooSmall);
+    /* the content must be at least as large as the largest repcode, or no decoder loads the result */
+    if (dictContentSize < (size_t)ZDICT_maxRep(repStartValue)) return ERROR(srcSize_wrong);
+
     /* calculate entropy tables */
     DISPLAYLEVEL(2, "\r%70s\r", "");   /* clean display line */
     DISPLAYLEVEL(2, "statistics ... \n");
